@@ -626,6 +626,46 @@ def r11_eos(run, F):
     k = sum(1 for p, _ in hirq.constructs(pe["hir"]) if hirq.short(p) == "BaseToken::EndOfSource")
     run.ob("R11-TWO-MARKERS", LT + "TokensBuffer::push_end_of_source", k >= 2, F.where(pe),
            "two EndOfSource markers keep base_tokens_from(cursor) in bounds after one take at the end (found %d)" % k)
+    # the token streams that stand for a lexer-level failure (E101 empty file, E102 too large, E103 too many tokens) end in two markers
+    # as well: parse() is a public function and `skip_until` panics ("there is always an EndOfSource token") on a stream without one
+    ee = F.body(LT + "Tokens::empty_with_one_error")
+
+    def multiplicity(root, pred):
+        total = 0
+
+        def visit(n, anc):
+            nonlocal total
+            if pred(n):
+                m = 1
+                for i, a in enumerate(anc):
+                    if a.get("k") == "Loop" and "ForLoop" in str(a.get("lsrc")):
+                        it = None
+                        for b2 in reversed(anc[:i]):
+                            if b2.get("k") == "Match":
+                                sc = hirq.unwrap_trivial(b2["scrut"])
+                                if sc.get("k") == "Call" and (hirq.callee(sc) or "").endswith("into_iter") and sc.get("a"):
+                                    it = hirq.unwrap_trivial(sc["a"][0])
+                                break
+                        if it is not None and it.get("k") == "Struct" and str(it.get("path", "")).endswith("ops::Range"):
+                            fs = {f["name"]: hirq.unwrap_trivial(f["e"]) for f in it.get("fields", [])}
+                            if fs.get("start", {}).get("k") == "Lit" and fs.get("end", {}).get("k") == "Lit":
+                                m *= max(0, fs["end"]["v"] - fs["start"]["v"])
+                total += m
+            for _, c in hirq._children(n):
+                anc.append(n)
+                visit(c, anc)
+                anc.pop()
+        visit(root, [])
+        return total
+    k2 = multiplicity(ee["hir"], lambda n: n.get("k") == "Path" and not n.get("inpat") and str(n.get("ctor_of") or n.get("res") or "").endswith("BaseToken::EndOfSource"))
+
+    def pushes_on(field):
+        return multiplicity(ee["hir"], lambda n: n.get("k") == "MethodCall" and n.get("name") == "push" and
+                            hirq.unwrap_trivial(n["recv"]).get("k") == "Field" and hirq.unwrap_trivial(n["recv"]).get("name") == field)
+    par = [pushes_on(f) for f in ("tokens", "token_vaps", "token_locations")]
+    run.ob("R11-TWO-MARKERS", LT + "Tokens::empty_with_one_error", k2 >= 2 and len(set(par)) == 1 and par[0] >= 3, F.where(ee),
+           "the one-error token stream is [Error, EndOfSource, EndOfSource] in all three parallel arrays (EndOfSource pushed %d times; pushes per array %s): "
+           "`parse(&lex(b\"\"))` otherwise panics in skip_until" % (k2, par))
     # lex_source_into_buffer ends in push_end_of_source on the fall-through path
     lb = F.body("delta::lexer::lex_source_into_buffer")
     tail = lb["hir"].get("e", {})
